@@ -122,6 +122,11 @@ tv.register("tv-l2", gen_l2, check_simplify)
 
 
 def replay(data):
+    if data.get("kind") == "xh":
+        from props.c02 import replay_call
+        d = dict(data)
+        d["mod"] = "props.xh_fold"
+        return replay_call(d)
     env = tv.fresh_env()
     f = bp.from_bp(data["formula"], env)
     try:
@@ -137,6 +142,51 @@ def replay(data):
         return True, "new symbols %s" % (extra,)
     ok, msg = tv.replay_equiv(f, g, data.get("interp"))
     return ok, "simplify(%s) = %s ; %s" % (f.serialize(), g.serialize(), msg)
+
+
+def xh_fold_family(run):
+    """CrossHair on the real rewrite rules: constants AND the values of the opaque symbols are symbolic; the argument
+    pattern says which positions are constants ('c'), which a symbol ('x') and which the same symbol again ('s')."""
+    from props import c02
+    quick = run.tier == "quick"
+    t = 40.0 if quick else 200.0
+    jobs = []
+
+    def add(opn, pat, **kw):
+        p = dict(kw, op=opn, pat=pat, name="fold/%s/%s/w%s" % (opn, pat, kw.get("w", "-")))
+        jobs.append(("props.xh_fold", "h_fold", t, p))
+    for o in c02.LINEAR_BV:
+        ar = len(__import__("props.xh_fold", fromlist=["OPS"]).OPS[o][0])
+        for w in ((2, 4) if quick else (1, 2, 3, 4, 8)):
+            if ar == 1:
+                add(o, "c", w=w, w2=2)
+                continue
+            pats = ["cc", "cx", "xc", "xs"] if ar == 2 else ["ccc", "cxc", "xcc", "cxs"]
+            for pat in pats:
+                add(o, pat, w=w, w2=2)
+    for o in c02.NONLIN_BV:
+        if o == "BVSMod":
+            continue
+        for w in ((2, 3) if quick else (1, 2, 3, 4)):
+            for pat in ("cc", "cx", "xc", "xs"):
+                add(o, pat, w=w)
+    for o in ("Plus/I", "Minus/I", "Times/I", "LE/I", "LT/I", "Equals/I", "Div/I"):
+        for pat in ("cc", "cx", "xc", "xs"):
+            add(o, pat)
+    for o in ("And", "Or", "Implies", "Iff", "Ite/I", "Ite/B", "Ite/V"):
+        ar = 3 if o.startswith("Ite") else 2
+        for pat in (["cc", "cx", "xc", "xs"] if ar == 2 else ["ccc", "cxx", "xcc", "xcx", "cxs"]):
+            add(o, pat, w=2)
+    for o in ("StrConcat", "StrContains", "StrPrefixOf", "StrSuffixOf", "Equals/S"):
+        for pat in ("cc", "cx", "xc"):
+            add(o, pat, strlen=2)
+
+    def describe(p, r):
+        return "simplify on %s pattern %s with payloads/values %r disagrees with the reference evaluator" % (p["op"], p["pat"], r["args"])
+    c02.run_xh_family(run, "xh-fold", jobs, describe, lambda p, a: "simplify-fold/%s/%s" % (p["op"], p["pat"]), "xh")
+    c02.twin_check(run, "xh-fold", jobs[::13])
+    run.bounds["xh-fold"] = ("constant payloads and symbol values symbolic: BV widths 2,4 (quick) / 1-4,8 linear, 2-3 / 1-4 mul/div/rem; "
+                             "Int unbounded; strings length <= 2; patterns const/const, const/symbol, symbol/const, same symbol twice")
 
 
 def run(run, only=None):
@@ -157,6 +207,8 @@ def run(run, only=None):
         if only and fam not in only:
             continue
         tv.run_family(run, fam, run.tier)
+    if not only or "xh-fold" in only:
+        xh_fold_family(run)
     run.extra["programs"] = run.evaluations
     run.extra["rule"] = ("instance = grammar formula; non-trivial = simplify returned a different object "
                          "(a solver query was needed unless the translations coincide)")
